@@ -151,12 +151,22 @@ def qpow(x, n, path=None):
         return p10(n)
     t = qpow_uf(x, n)
     if path is not None:
-        path.assume(z3.Implies(n == 0, t == 1))
-        path.assume(z3.Implies(n == 1, t == x))
-        path.assume(z3.Implies(n == -1, t * x == 1))
-        path.assume(z3.Implies(x == 1, t == 1))
-        path.assume(qpow_uf(x, -n) * t == 1) if False else None
+        for f in qpow_facts(x, n):
+            path.assume(f)
     return t
+
+
+def qpow_facts(x, n):
+    """ground instances of the laws of integer powers for the term x ** n (A3)"""
+    t = qpow_uf(x, n)
+    return [
+        z3.Implies(n == 0, t == 1), z3.Implies(n == 1, t == x),
+        z3.Implies(n == -1, t * x == 1), z3.Implies(x == 1, t == 1),
+        z3.Implies(x != 0, z3.And(t != 0, qpow_uf(x, -n) * t == 1)),
+        z3.Implies(z3.And(x == 0, n > 0), t == 0),
+        z3.Implies(x > 0, t > 0),
+        z3.Implies(z3.And(is_int(x), n >= 0), is_int(t)),
+    ]
 
 
 numer = z3.Function("numer", z3.RealSort(), z3.IntSort())
